@@ -391,3 +391,181 @@ Lemma ex_errors :
   /\ err_class [] ex_noorigin = Some AssertionError /\ no_nl ex_noorigin = true /\ read_fts_genbank [] (render_gb ex_noorigin) = RErr AssertionError
   /\ wf_C10 [k_fts] ex_noorigin = true.
 Proof. vm_compute. repeat split; reflexivity. Qed.
+Local Open Scope Z_scope.
+(* ------------------------------------------------------------ strand orderings *)
+Lemma sem_compl_join es : sem (LCompl (LJoin es)) = sem (LJoin (map LCompl es)) /\ sem (LCompl (LOrder es)) = sem (LOrder (map LCompl es)).
+Proof.
+  assert (A : map flip (flat_map sem es) = flat_map sem (map LCompl es)).
+  { induction es as [|e r IH]; [reflexivity|]. cbn [flat_map map sem]. rewrite map_app, IH. reflexivity. }
+  split; exact A.
+Qed.
+Lemma sorted_perm_eq (R : loc -> loc -> Prop) : (forall a, R a a) -> forall l1 l2,
+  StronglySorted R l1 -> StronglySorted R l2 -> Permutation l1 l2 ->
+  (forall a b, In a l1 -> In b l1 -> R a b -> R b a -> a = b) -> l1 = l2.
+Proof.
+  intros Rr. induction l1 as [|a t1 IH]; intros l2 S1 S2 P An.
+  - apply Permutation_nil in P. now subst.
+  - destruct l2 as [|b t2]; [apply Permutation_sym, Permutation_nil in P; discriminate|].
+    apply StronglySorted_inv in S1. destruct S1 as [S1 F1]. apply StronglySorted_inv in S2. destruct S2 as [S2 F2].
+    rewrite Forall_forall in F1, F2.
+    assert (Hb : In b (a :: t1)) by (eapply Permutation_in; [apply Permutation_sym; exact P|left; reflexivity]).
+    assert (Ha : In a (b :: t2)) by (eapply Permutation_in; [exact P|left; reflexivity]).
+    assert (Rab : R a b) by (destruct Hb as [<-|Hb]; [apply Rr|apply F1; exact Hb]).
+    assert (Rba : R b a) by (destruct Ha as [<-|Ha]; [apply Rr|apply F2; exact Ha]).
+    assert (E : a = b) by (apply An; [left; reflexivity|exact Hb|exact Rab|exact Rba]). subst b.
+    f_equal. apply IH; try assumption.
+    + eapply Permutation_cons_inv. exact P.
+    + intros x y Hx Hy. apply An; right; assumption.
+Qed.
+Lemma NoDup_map_inj {A B} (f : A -> B) l a b : NoDup (map f l) -> In a l -> In b l -> f a = f b -> a = b.
+Proof.
+  induction l as [|x t IH]; [intros _ []|]. cbn [map]. intros N Ha Hb E. inversion N as [|? ? Hn Nt]; subst.
+  destruct Ha as [<-|Ha], Hb as [<-|Hb]; [reflexivity| | |apply IH; assumption].
+  - exfalso. apply Hn. rewrite E. apply in_map. exact Hb.
+  - exfalso. apply Hn. rewrite <- E. apply in_map. exact Ha.
+Qed.
+Lemma sort_asc_perm l : Permutation (sort_asc l) l.
+Proof. induction l as [|x r IH]; [reflexivity|]. cbn. rewrite insert_asc_perm. now constructor. Qed.
+Lemma sort_desc_perm l : Permutation (sort_desc l) l.
+Proof. induction l as [|x r IH]; [reflexivity|]. cbn. rewrite insert_desc_perm. now constructor. Qed.
+Lemma one_strand_all l : one_strand l = true -> forall x, In x l -> lstrand x = lstrand (hd x l).
+Proof.
+  destruct l as [|l0 r]; [discriminate|]. unfold one_strand. intros H x Hx. rewrite forallb_forall in H. specialize (H x Hx).
+  apply byte_eqb_eq in H. exact H.
+Qed.
+(* the LocationTuple of a one-strand feature depends only on the SET of its locations when their starts and stops are pairwise
+   different: any two ways of writing the same parts (complement(join(a,b)) and join(complement(b),complement(a))) give the same tuple *)
+Lemma sort_locs_perm_eq l l' : Permutation l l' -> one_strand l = true -> NoDup (map lstart l) -> NoDup (map lstop l) ->
+  sort_locs l = sort_locs l'.
+Proof.
+  intros P O N1 N2. pose proof (one_strand_all l O) as Hs.
+  destruct l as [|a t]; [discriminate O|]. destruct l' as [|b t']; [apply Permutation_sym, Permutation_nil in P; discriminate|].
+  assert (Hb : In b (a :: t)) by (eapply Permutation_in; [apply Permutation_sym; exact P|left; reflexivity]).
+  assert (Eb : lstrand b = lstrand a) by (apply (Hs b Hb)).
+  unfold sort_locs. rewrite Eb. destruct (byte_eqb (lstrand a) minus).
+  - apply (sorted_perm_eq (fun x y => lstop x >= lstop y)); [intros; lia|apply sort_desc_sorted|apply sort_desc_sorted| |].
+    + rewrite !sort_desc_perm. exact P.
+    + intros x y Hx Hy R1 R2. apply (NoDup_map_inj lstop (a :: t)); [exact N2| | |lia];
+        (eapply Permutation_in; [apply sort_desc_perm|]); assumption.
+  - apply (sorted_perm_eq (fun x y => lstart x <= lstart y)); [intros; lia|apply sort_asc_sorted|apply sort_asc_sorted| |].
+    + rewrite !sort_asc_perm. exact P.
+    + intros x y Hx Hy R1 R2. apply (NoDup_map_inj lstart (a :: t)); [exact N1| | |lia];
+        (eapply Permutation_in; [apply sort_asc_perm|]); assumption.
+Qed.
+Lemma flat_map_rev_perm {A B} (f : A -> list B) l : Permutation (flat_map f (rev l)) (flat_map f l).
+Proof.
+  induction l as [|x r IH]; [reflexivity|]. cbn [rev flat_map]. rewrite flat_map_app. cbn [flat_map]. rewrite app_nil_r.
+  rewrite IH. apply Permutation_app_comm.
+Qed.
+(* C10_strand_order *)
+Lemma strand_order es :
+  sem (LCompl (LJoin es)) = sem (LJoin (map LCompl es))
+  /\ (one_strand (sem (LCompl (LJoin es))) = true ->
+      NoDup (map lstart (sem (LCompl (LJoin es)))) -> NoDup (map lstop (sem (LCompl (LJoin es)))) ->
+      sort_locs (sem (LCompl (LJoin es))) = sort_locs (sem (LJoin (map LCompl (rev es))))
+      /\ sort_locs (sem (LCompl (LJoin es))) = sort_locs (sem (LCompl (LJoin (rev es)))))
+  /\ (forall e, one_strand (sem e) = true -> Forall (fun l => lstrand l = minus) (sem e) ->
+      StronglySorted (fun a b => lstop a >= lstop b) (sort_locs (sem e))).
+Proof.
+  split; [apply sem_compl_join|]. split.
+  - intros O N1 N2. split.
+    + apply sort_locs_perm_eq; try assumption. rewrite (proj1 (sem_compl_join es)). cbn [sem]. rewrite map_rev.
+      apply Permutation_sym. apply flat_map_rev_perm.
+    + apply sort_locs_perm_eq; try assumption. cbn [sem]. apply Permutation_map. apply Permutation_sym. apply flat_map_rev_perm.
+  - intros e O F. destruct (sem e) as [|l0 r] eqn:E; [discriminate O|]. unfold sort_locs.
+    inversion F as [|? ? H0 _]; subst. rewrite H0. change (byte_eqb minus minus) with true. cbv iota. apply sort_desc_sorted.
+Qed.
+
+(* ------------------------------------------------------------ remote locations (accession:location) are rejected *)
+Definition colon : byte := ":"%byte.
+Lemma int_body_colon s : has colon s = true -> forall acc p, int_body s acc p = None.
+Proof.
+  induction s as [|c r IH]; [discriminate|]. intros H acc p. rewrite has_cons in H. cbn [int_body].
+  destruct (digit_val c) as [dv|] eqn:D.
+  - apply IH. destruct (byte_eqb colon c) eqn:E; [|exact H]. apply byte_eqb_eq in E. subst c. discriminate D.
+  - destruct (byte_eqb "_" c && p) eqn:U; [|reflexivity]. destruct r as [|c2 r2]; [reflexivity|].
+    destruct (is_digit c2); [|reflexivity]. apply IH.
+    destruct (byte_eqb colon c) eqn:E; [|exact H]. apply byte_eqb_eq in E. subst c. discriminate U.
+Qed.
+Lemma has_lstrip x s : is_ws x = false -> has x (lstrip s) = has x s.
+Proof.
+  intros Hx. induction s as [|c r IH]; [reflexivity|]. cbn [lstrip]. destruct (is_ws c) eqn:E; [|reflexivity].
+  rewrite IH, has_cons. destruct (byte_eqb x c) eqn:E2; [|reflexivity]. apply byte_eqb_eq in E2. subst. congruence.
+Qed.
+Lemma has_rstrip x s : is_ws x = false -> has x (rstrip s) = has x s.
+Proof.
+  intros Hx. induction s as [|c r IH]; [reflexivity|]. cbn [rstrip]. rewrite has_cons, <- IH.
+  destruct (rstrip r) as [|y t] eqn:E.
+  - destruct (is_ws c) eqn:Ec.
+    + cbn. destruct (byte_eqb x c) eqn:E2; [|reflexivity]. apply byte_eqb_eq in E2. subst. congruence.
+    + cbn. now rewrite orb_false_r.
+  - rewrite has_cons. reflexivity.
+Qed.
+Lemma py_int_colon s : has colon s = true -> py_int s = None.
+Proof.
+  intros H. unfold py_int. assert (Hs : has colon (strip s) = true) by (unfold strip; rewrite has_rstrip, has_lstrip by reflexivity; exact H).
+  destruct (strip s) as [|c r]; [discriminate|].
+  assert (Hr : byte_eqb colon c = false -> has colon r = true) by (intros E; rewrite has_cons, E in Hs; exact Hs).
+  destruct c; try (apply int_body_colon; exact Hs); rewrite (int_body_colon r (Hr eq_refl)); reflexivity.
+Qed.
+Lemma range_of_colon ps d : existsb (has colon) ps = true -> range_of ps d = RErr ValueError.
+Proof.
+  intros H. unfold range_of. destruct ps as [|a [|b [|c t]]]; try reflexivity. cbn [existsb] in H. rewrite orb_false_r in H.
+  destruct (has colon a) eqn:Ea.
+  - now rewrite (py_int_colon a Ea).
+  - cbn [orb] in H. rewrite (py_int_colon b H). destruct (py_int a); reflexivity.
+Qed.
+Lemma existsb_cons_head x y l : existsb (has x) (cons_head y l) = byte_eqb x y || existsb (has x) l.
+Proof. destruct l as [|h t]; cbn [cons_head existsb]; rewrite has_cons; [cbn; now rewrite !orb_false_r|now rewrite orb_assoc]. Qed.
+Lemma split_char_has c x s : byte_eqb x c = false -> has x s = true -> existsb (has x) (split_char c s) = true.
+Proof.
+  intros Hc. induction s as [|y r IH]; [discriminate|]. rewrite has_cons. cbn [split_char]. destruct (byte_eqb c y) eqn:E.
+  - apply byte_eqb_eq in E. subst y. rewrite Hc. cbn [orb existsb]. intros H. now rewrite IH.
+  - rewrite existsb_cons_head. destruct (byte_eqb x y); [reflexivity|]. cbn [orb]. exact IH.
+Qed.
+Lemma split_dotdot_has x : byte_eqb x "." = false -> forall n s, (length s <= n)%nat -> has x s = true ->
+  existsb (has x) (split_dotdot s) = true.
+Proof.
+  intros Hd. induction n as [|n IH]; intros s L H.
+  - destruct s; [discriminate H|cbn in L; lia].
+  - destruct s as [|c1 r]; [discriminate H|]. cbn [split_dotdot]. destruct r as [|c2 r2].
+    + cbn [existsb]. rewrite orb_false_r. exact H.
+    + destruct (is_dot c1 && is_dot c2) eqn:E.
+      * apply andb_prop in E. destruct E as [E1 E2]. unfold is_dot in E1, E2. apply byte_eqb_eq in E1, E2. subst c1 c2.
+        rewrite !has_cons, Hd in H. cbn [orb] in H. cbn [existsb]. rewrite (IH r2); [apply orb_true_r| |exact H]. cbn [length] in L. lia.
+      * rewrite existsb_cons_head. rewrite has_cons in H. destruct (byte_eqb x c1); [reflexivity|]. cbn [orb] in H |- *.
+        apply IH; [cbn [length] in L |- *; lia|exact H].
+Qed.
+(* C10_remote_rejected: a single location whose text contains ':' (a remote reference, accession:location) is rejected with ValueError *)
+Lemma remote_single s : has colon s = true -> parse_single s = RErr ValueError.
+Proof.
+  intros H. unfold parse_single. destruct s as [|c r]; [discriminate|].
+  assert (T : forall d2 s2, has colon s2 = true ->
+     (if has_dotdot s2 then range_of (split_dotdot s2) d2
+      else if has "."%byte s2 then range_of (split_char "."%byte s2) (N.lor d2 D_UNKNOWN_SINGLE_BETWEEN)
+      else if has "^"%byte s2 then range_of (split_char "^"%byte s2) (N.lor d2 D_BETWEEN_CONSECUTIVE)
+      else match py_int s2 with Some n => mk_location (n - 1) n d2 | None => RErr ValueError end) = RErr ValueError).
+  { intros d2 s2 H2. destruct (has_dotdot s2); [apply range_of_colon; apply (split_dotdot_has colon eq_refl (length s2)); [lia|exact H2]|].
+    destruct (has "." s2); [apply range_of_colon; apply split_char_has; [reflexivity|exact H2]|].
+    destruct (has "^" s2); [apply range_of_colon; apply split_char_has; [reflexivity|exact H2]|].
+    now rewrite (py_int_colon s2 H2). }
+  assert (G : forall t, has colon t = true -> has colon (remove_char ">" t) = true).
+  { induction t as [|y t IH]; [discriminate|]. rewrite has_cons. unfold remove_char. cbn [filter]. destruct (byte_eqb ">" y) eqn:E.
+    - apply byte_eqb_eq in E. subst y. cbn [negb orb]. exact IH.
+    - cbn [negb]. rewrite has_cons. destruct (byte_eqb colon y); [reflexivity|]. cbn [orb]. exact IH. }
+  destruct (byte_eqb "<" c) eqn:E.
+  - apply byte_eqb_eq in E. subst c. rewrite has_cons in H. cbn [orb] in H. change (byte_eqb colon "<") with false in H. cbn [orb] in H.
+    destruct (has ">" r); apply T; [apply G|]; exact H.
+  - destruct (has ">" (c :: r)); apply T; [apply G|]; exact H.
+Qed.
+Lemma remote_rejected s : has colon s = true -> is_compound (strip s) = false -> parse_locs_str s = RErr ValueError.
+Proof.
+  intros H C. unfold parse_locs_str. cbn [parse_locs]. rewrite C. rewrite remote_single; [reflexivity|].
+  unfold strip. rewrite has_rstrip, has_lstrip by reflexivity. exact H.
+Qed.
+
+Lemma ex_quotes :
+  wf_qual (QText (d "note") [unhex (bs "73617920222268692222206e6f77"%bs)]) = true
+  /\ wf_qual (QText (d "note") [unhex (bs "736179202222686922222222"%bs)]) = false
+  /\ strip_char dq (unhex (bs "22736179202222686922222222"%bs)) = unhex (bs "7361792022226869"%bs).
+Proof. vm_compute. repeat split; reflexivity. Qed.
